@@ -18,6 +18,15 @@ package generator
 //@ assume func Protocol.IsExecuting
 //@   ensures result == @isExec(recv)
 
+// The protocol registry only grows: registering keeps every protocol
+// registered before and adds the new one (sequential specification at the
+// critical section of protocolsMutex), so checkProtocols consults all of them.
+//@ func Scheduler.RegisterProtocol
+//@   property C45
+//@   opt noframe 1
+//@   opt lock-no-havoc 1
+//@   ensures [registering-keeps-every-registered-protocol-and-adds-this-one] len(s.protocols) == old(len(s.protocols)) + 1 && s.protocols[old(len(s.protocols))] == protocol && (forall k int :: 0 <= k && k < old(len(s.protocols)) ==> s.protocols[k] == old(s.protocols[k]))
+
 //@ type Scheduler
 //@   property C45
 //@   guarded_by workMutex state workers stops
